@@ -1111,6 +1111,8 @@ func (s *SSEServer) sendSuccessResponse(requestID interface{}, result interface{
 	fullResponseData, err := json.Marshal(response)
 	if err != nil {
 		s.logger.Errorf("Error encoding full response: %v", err)
+		// The handler's result cannot be encoded: report it as a handler failure instead of staying silent.
+		s.handleRequestError(fmt.Errorf("%w: %v", ErrResponseSerialization, err), requestID, session)
 		return
 	}
 
